@@ -43,7 +43,7 @@ ANCHORS = [
     ('pjrpc/common/generators.py', 'random'),
 ]
 NOTATIONS_SINGLE = ['call', 'dunder-call', 'proxy', 'send', 'notify']
-NOTATIONS_BATCH = ['add', 'chain', 'getitem', 'batch-proxy', 'hand-built']
+NOTATIONS_BATCH = ['add', 'chain', 'getitem', 'batch-proxy', 'hand-built', 'hand-built-lenient']
 FLOORS = {'*': {**{f'notation:{n}:{k}': 20 for n in NOTATIONS_SINGLE + NOTATIONS_BATCH for k in ('sync', 'async')},
                 'all-notification-batch:sync': 5, 'all-notification-batch:async': 5, 'idgen:sequential': 100,
                 'idgen:randint': 50, 'idgen:random': 50, 'idgen:uuid': 10, 'outcome:result': 200, 'outcome:typed-error': 20,
@@ -167,12 +167,14 @@ def run_batch(client, notation, calls, is_async):
                 pr = getattr(pr, m)(*a, **k)
             return pr.call()
         raise KeyError(notation)
-    if notation == 'hand-built':
+    if notation in ('hand-built', 'hand-built-lenient'):
         def send():
             b = client.batch
             idg = client.id_gen_impl()
+            # 'hand-built-lenient': the caller builds the batch with strict=False (no duplicate-id check on the batch object)
+            extra = {'strict': False} if notation == 'hand-built-lenient' else {}
             req = client.batch_request_class(*[client.request_class(m, (tuple(p) if how == 'args' else dict(p)),
-                                                                    id=None if notif else next(idg)) for m, how, p, notif in calls])
+                                                                    id=None if notif else next(idg)) for m, how, p, notif in calls], **extra)
             return b.send(req)
         st, v = clientside.outcome_of(send, is_async)
         if st == 'exc' or v is None:
@@ -364,13 +366,13 @@ def gen(ctx):
         src = positional_ok if positional_only else pool
         calls = [list(rng.choice(src)) + [False] for _ in range(n)]
         if positional_only:
-            notations = ['add', 'chain', 'getitem', 'batch-proxy', 'hand-built']
+            notations = ['add', 'chain', 'getitem', 'batch-proxy', 'hand-built', 'hand-built-lenient']
         else:
-            notations = ['add', 'chain', 'batch-proxy', 'hand-built']
+            notations = ['add', 'chain', 'batch-proxy', 'hand-built', 'hand-built-lenient']
         if rng.random() < 0.45:
             for c in calls:
                 c[3] = rng.random() < 0.5
-            notations = ['add', 'chain', 'hand-built']
+            notations = ['add', 'chain', 'hand-built', 'hand-built-lenient']
         yield 'program', dict(calls=calls, notations=notations, **cfg())
     # batches whose earlier calls really suspend longer than later ones (completion order != request order)
     for ticks in ([3, 0], [2, 1, 0], [0, 3, 1], [3, 2, 1, 0], [1, 0, 2]):
@@ -381,7 +383,7 @@ def gen(ctx):
     for n in (1, 2, 3, 4):
         for _ in range(8 if full else 3):
             calls = [list(rng.choice(pool)) + [True] for _ in range(n)]
-            yield 'program', dict(calls=calls, notations=['add', 'chain', 'hand-built'], **cfg())
+            yield 'program', dict(calls=calls, notations=['add', 'chain', 'hand-built', 'hand-built-lenient'], **cfg())
 
 
 KINDS = {'program': run_program}
